@@ -434,6 +434,7 @@ func main() {
 	h.racing(r, f.Tier == "thorough")
 	h.askDuringKill(f.Tier == "thorough")
 	h.entrust()
+	h.waitInKill()
 	// let the pipes and late replies drain
 	deadline := time.Now().Add(margin)
 	for time.Now().Before(deadline) {
